@@ -83,6 +83,7 @@ fn real_main() {
                 (Some("serde"), 5) if a[1] == "de" => common::parse_value(a[3]).map(|v| format!("serde de {} {} {}", a[2], a[3], probe::num_table(&v))),
                 (Some("serde"), 5) if a[1] == "rt" => probe::parse_sd(a[3]).and_then(|d| json_syntax::to_value(&d).ok()).map(|v| format!("serde rt {} {} {}", a[2], a[3], probe::num_table(&v))),
                 (Some("serde"), 4) if a[1] == "fromvalm" || a[1] == "fromobj" => common::parse_value(a[2]).map(|v| format!("serde {} {} {}", a[1], a[2], probe::num_table(&v))),
+                (Some("serde"), 3) | (Some("serde"), 4) if a[1] == "sj" => common::parse_value(a[2]).map(|v| serdeh::sj_request(&v)),
                 _ => None,
             };
             println!("{}", fixed.unwrap_or_else(|| line.to_string()));
